@@ -410,9 +410,9 @@ func classObs(class string) string {
 
 func runC01(res *Result, rng *RNG, tier string, outDir string) {
 	res.Rule = "token families built by random histories (build with/without root id, 0-4 appends, seal, serialize/unmarshal) and, for every token, 12-13 structural mutations of the envelope made at protobuf level (block bytes substituted from another block/token, announced key replaced, signature bit flipped, blocks swapped, removed, inserted from another token, a block appended and signed by an attacker key, proof replaced by an attacker secret / random or attacker seal / empty / wrong-length secret / another token's proof, algorithm number changed, mis-sized keys and signatures, root id changed). Oracle: an independent reference acceptor (decode with protobuf-go, check the chain with crypto/ed25519 itself): the library accepts exactly what the reference accepts; every library-built token verifies. Non-trivial = a mutated envelope that differs from every unmutated token of the family; distinct by token bytes."
-	nfam := 12
+	nfam := 5
 	if tier == "thorough" {
-		nfam = 150
+		nfam = 40
 	}
 	var vcases, vdescs []string
 	var chainCases, chainDescs []string
@@ -442,6 +442,10 @@ func runC01(res *Result, rng *RNG, tier string, outDir string) {
 			if class != "ok" {
 				res.Violate("library-token-rejected:"+t.Op, fmt.Sprintf("a token produced by %s is rejected under the matching root key: %s", t.Op, class), rep)
 			}
+			// the token object itself, after all later derivations of the family
+			if _, err := t.Tok.AuthorizerFor(ks); err != nil {
+				res.Violate("library-token-rejected-later:"+t.Op, fmt.Sprintf("a token produced by %s no longer verifies after later derivations from its family: %v", t.Op, err), rep)
+			}
 			f.addVerifyOracle(f.pub, t.C)
 			vcases = append(vcases, fmt.Sprintf("{| vc_keys := KSingular %s; vc_cont := %s; vc_obs := %s |}", coqBytes(f.pub), t.C.coq(), classObs(class)))
 			vdescs = append(vdescs, "unmutated "+t.Op)
@@ -466,10 +470,12 @@ func runC01(res *Result, rng *RNG, tier string, outDir string) {
 				if class == "ok" && !want {
 					res.Violate("forgery-accepted:"+m.Name, "the library accepts a token whose signature chain is not valid under the root key", rep)
 				}
-				if class != "ok" && want && !strings.HasPrefix(class, "unmarshal:decode") {
+				blockLevel := strings.HasPrefix(class, "unmarshal:decode") || class == "unmarshal:EMissingSymbols"
+				if class != "ok" && want && !blockLevel {
 					res.Violate("valid-chain-rejected:"+m.Name, "the library rejects a token whose chain is valid: "+class, rep)
 				}
-				if strings.HasPrefix(class, "unmarshal:decode") {
+				if blockLevel {
+					// rejected while decoding the blocks' content: below the envelope layer (covered by the C10 pipeline model)
 					res.Dist("skipped-model:block-decode")
 					continue
 				}
@@ -488,6 +494,7 @@ func runC01(res *Result, rng *RNG, tier string, outDir string) {
 	cf.WriteTo(outDir, "Cases_C01.v")
 	res.ModelCases = len(chainCases) + len(vcases)
 	res.CaseDescs = append(chainDescs, vdescs...)
+	res.Extra["group_sizes"] = []int{len(chainCases), len(vcases)}
 }
 
 func newFamilyShared(rng *RNG, orc *oracle) *family {
@@ -522,6 +529,47 @@ func genFamilyInto(f *family, rng *RNG, withIDs bool) {
 			live = append(live, ni)
 		}
 	}
+	// fork phase: sibling derivations from a parent deep enough for its slices to have spare
+	// capacity (3, 5, 6, 7 blocks): extend the deepest attenuable token to such a depth, then
+	// append to it twice (and seal it once) — the first sibling must not be affected by the second
+	best := -1
+	for _, i := range live {
+		t := f.toks[i]
+		if !t.Sealed && (best < 0 || len(t.Blocks) > len(f.toks[best].Blocks)) {
+			best = i
+		}
+	}
+	if best >= 0 {
+		want := []int{3, 5, 6}[rng.Intn(3)]
+		for len(f.toks[best].Blocks)-1 < want {
+			ni, err := f.append(rng, best)
+			if err != nil {
+				break
+			}
+			best = ni
+		}
+		if rng.Chance(50) {
+			if ri, err := f.reload(best); err == nil {
+				best = ri
+			}
+		}
+		f.append(rng, best)
+		f.append(rng, best)
+		f.seal(rng, best)
+		f.append(rng, best)
+	}
+}
+
+// frameCheck: a token observed when it was created must be observed identically after every
+// later derivation of the family (siblings, seals, reloads)
+func (f *family) frameCheck(res *Result, key string) {
+	for ti, t := range f.toks {
+		now, err := t.Tok.Serialize()
+		rep := map[string]interface{}{"token_index": ti, "history_op": t.Op, "bytes_at_creation": fmt.Sprintf("%x", t.Bytes), "bytes_now": fmt.Sprintf("%x", now)}
+		if err != nil || !bytes.Equal(now, t.Bytes) {
+			res.Violate(key, fmt.Sprintf("a token produced by %s serializes differently after later derivations from its family (a sibling changed it)", t.Op), rep)
+		}
+	}
 }
 
 func rootIDString(p *uint32) string {
@@ -535,9 +583,9 @@ func rootIDString(p *uint32) string {
 
 func runC16(res *Result, rng *RNG, tier string, outDir string) {
 	res.Rule = "token families with root key ids {absent, 0, 1, 7, 2^31, 2^32-1, random}: RootKeyID() of every token of the family after every derivation (append, seal, serialize/unmarshal) must equal the id given at creation; key lookup through WithRootPublicKeys with key maps {right id -> right key, right id -> wrong key, only other ids, nil/empty key under the right id} x default {absent, right key, wrong key} and through WithSingularRootPublicKey: the outcome must be that of verifying under exactly the key registered for the token's id (default when the token has none), ErrNoPublicKeyAvailable when there is none. Non-trivial = a derived token (not the root build) or a map lookup with a decoy key; distinct by (token bytes, key source)."
-	nfam := 25
+	nfam := 9
 	if tier == "thorough" {
-		nfam = 300
+		nfam = 100
 	}
 	orc := newOracle()
 	var vcases, vdescs, chainCases, chainDescs []string
@@ -643,15 +691,16 @@ func runC16(res *Result, rng *RNG, tier string, outDir string) {
 	cf.WriteTo(outDir, "Cases_C16.v")
 	res.ModelCases = len(chainCases) + len(vcases)
 	res.CaseDescs = append(chainDescs, vdescs...)
+	res.Extra["group_sizes"] = []int{len(chainCases), len(vcases)}
 }
 
 // ---------------- C17: revocation identifiers ----------------
 
 func runC17(res *Result, rng *RNG, tier string, outDir string) {
 	res.Rule = "token families with deliberately identical block contents on the same and on different tokens (fresh randomness per operation): after every derivation the revocation ids are compared with the block signatures found by an independent decode of the serialized token (protobuf-go), with the parent's ids (prefix), with the block count, and for uniqueness across all signing events of the family. Non-trivial = a derived token; distinct by token bytes."
-	nfam := 40
+	nfam := 20
 	if tier == "thorough" {
-		nfam = 500
+		nfam = 250
 	}
 	orc := newOracle()
 	var rcases, rdescs []string
@@ -659,6 +708,7 @@ func runC17(res *Result, rng *RNG, tier string, outDir string) {
 		r := rng.Fork()
 		f := newFamilyShared(r, orc)
 		genFamilyInto(f, r, true)
+		f.frameCheck(res, "ids-changed-by-sibling")
 		// a sibling with identical content appended twice to the same parent
 		if len(f.toks) > 0 {
 			p := 0
@@ -853,7 +903,7 @@ func runC09(res *Result, rng *RNG, tier string, outDir string) {
 			if class == "ok" && !refChainValid(f.pub, mc) {
 				res.Violate("tampered-sealed-accepted:"+m.Name, "an altered sealed token is accepted", rep)
 			}
-			if strings.HasPrefix(class, "unmarshal:decode") {
+			if strings.HasPrefix(class, "unmarshal:decode") || class == "unmarshal:EMissingSymbols" {
 				continue
 			}
 			f.addVerifyOracle(f.pub, mc)
@@ -877,4 +927,5 @@ func runC09(res *Result, rng *RNG, tier string, outDir string) {
 	cf.WriteTo(outDir, "Cases_C09.v")
 	res.ModelCases = len(chainCases) + len(vcases)
 	res.CaseDescs = append(chainDescs, vdescs...)
+	res.Extra["group_sizes"] = []int{len(chainCases), len(vcases)}
 }
